@@ -25,6 +25,9 @@ MUTANTS = [
  ("transform-set-before-join", "toasty/transform.py", "    queue.close()\n    queue.join_thread()\n    done_event.set()", "    queue.close()\n    done_event.set()\n    queue.join_thread()", ["C03"], []),
  ("visit-no-worker-join", "toasty/pyramid.py", "        done_event.set()\n\n        for w in workers:\n            w.join()\n\n\nclass PyramidReductionIterator", "        done_event.set()\n\n\nclass PyramidReductionIterator", ["C03"], []),
  ("visit-wrong-tile", "toasty/pyramid.py", "                    ready_queue.put((pos, tile))", "                    ready_queue.put((pos, prev_tile if (prev_tile := getattr(self, '_pt', None)) is not None and pos.x % 2 else tile)); self._pt = tile", ["C03"], []),
+ ("workers-never-checked", "toasty/par_util.py", "        if code is not None and code != 0:", "        if False:", ["C19"], ["C03"]),
+ ("walk-no-idle-check", "toasty/pyramid.py", "                    try:\n                        check_workers(workers)\n                    except Exception:\n                        done_event.set()\n                        raise\n                    continue", "                    continue", ["C19"], ["C01"]),
+ ("transform-no-final-check", "toasty/transform.py", "    check_workers(workers)\n", "    pass\n", ["C19"], ["C03"]),
  ("opposite-parity-swap", "toasty/merge.py", "SLICES_OPPOSITE_PARITY = [\n    (slice(256, None), slice(None, 256)),\n    (slice(256, None), slice(256, None)),", "SLICES_OPPOSITE_PARITY = [\n    (slice(256, None), slice(256, None)),\n    (slice(256, None), slice(None, 256)),", ["C02"], ["C01"]),
  ("no-buf-clear", "toasty/merge.py", "        if self._buf is not None:\n            self._buf.clear()", "        if self._buf is not None:\n            pass", ["C02"], ["C01"]),
  ("min-of-max", "toasty/merge.py", "max_value = max(max_values)", "max_value = min(max_values)", ["C14"], ["C02"]),
